@@ -61,6 +61,9 @@ for id in sorted(os.listdir('/verif/seeded')):
         r7 = json.load(open('/verif/records/round7_breaking_first_pass.json'))['first_pass']
         for k7, v7 in r7.items():
             fp[k7] = dict(v7, round=7)
+        if os.path.exists('/verif/records/round8_breaking_first_pass.json'):
+            for k8, v8 in json.load(open('/verif/records/round8_breaking_first_pass.json'))['first_pass'].items():
+                fp[k8] = dict(v8, round=8)
     except Exception:
         fp = {}
     if id in fp:
